@@ -250,6 +250,8 @@ func (ex *Exec) fire(before bool, kind, name string, c *ssa.CallCommon, args []V
 			case "assume":
 				g := ex.evalBool(a.C.E, ex.st, env)
 				ex.vc.Assume(ex.st.pc, g, "assume at "+at.Anchor)
+			case "apply":
+				ex.applyLemma(a.C.E, env)
 			case "ghost":
 				v := sc(ex.eval(a.C.E, ex.st, env).V)
 				old, ok := ex.st.ghost[a.Target]
@@ -478,3 +480,33 @@ func (ex *Exec) doCopy(c *ssa.CallCommon, args []Value, pos token.Pos) Value {
 }
 
 func (ex *Exec) noteAppend(s SliceV, inplace Term, pos token.Pos) {}
+
+// applyLemma: `apply name(e1, ..., en)` assumes the instance of a (separately discharged) lemma
+// `forall x1..xn :: body` at the given terms.
+func (ex *Exec) applyLemma(e Expr, env *Env) {
+	call, ok := e.(ECall)
+	if !ok {
+		panic(unsupported("apply: want lemma(args)"))
+	}
+	name := call.Fun.(EIdent).Name
+	var lm *Lemma
+	for _, l := range ex.specs.Lemmas {
+		if l.Name == name {
+			lm = l
+		}
+	}
+	if lm == nil {
+		panic(unsupported("apply: unknown lemma " + name))
+	}
+	q, ok := lm.C.E.(EQuant)
+	if !ok || !q.Forall || len(q.Vars) != len(call.Args) {
+		panic(unsupported("apply: lemma " + name + " is not a forall over as many variables as arguments given"))
+	}
+	ne := &Env{vars: map[string]TV{}, pkg: env.pkgOf()}
+	for i, v := range q.Vars {
+		ne.vars[v.Name] = ex.eval(call.Args[i], ex.st, env)
+	}
+	g := ex.evalBool(q.Body, ex.st, ne)
+	ex.vc.Assume(ex.st.pc, g, "instance of lemma "+name)
+	ex.lemmasUsed[name] = true
+}
